@@ -110,6 +110,72 @@ def check_cases(ctx: Ctx, cases, variants):
     return n
 
 
+def reuse_pass(ctx: Ctx, cases, thorough: bool):
+    """histories on ONE registry object: (1) ClaimsReuse.tla behaviours (presence patterns of essential claims); (2) all
+    single-claim cases of Claims.tla that share a request are validated one after the other by the same registry object
+    (seeded order), each verdict must be in the set TLC computed for the case on its own"""
+    import random
+    from joserfc.jwt import JWTClaimsRegistry
+    from joserfc.errors import JoseError
+    r = ctx.tlc("ClaimsReuse", timeout=300)
+    ctx.sensitivity("ClaimsReuse", "ClaimsReuse_dev_EssentialConsumed")
+    n = 0
+    for c in {json.dumps(x, sort_keys=True): x for x in r.cases}.values():
+        reg = JWTClaimsRegistry(now=1_700_000_000, **{name: {"essential": True} for name in c["essential"]})
+        for i, step in enumerate(c["hist"]):
+            claims = {name: ("v-" + name if name != "aud" else ["v-aud"]) for name in step["present"]}
+            if i % 2 and "sub" not in claims:
+                claims["sub"] = None                       # an essential claim given as null is missing as well
+            try:
+                reg.validate(claims); out = "ok"
+            except JoseError as e:
+                out = CLASS.get(type(e).__name__, "jose:" + type(e).__name__)
+            n += 1
+            if out != step["verdict"]:
+                ctx.violation(f"claims:reused-registry essential={sorted(c['essential'])} call {i + 1} present={sorted(step['present'])} -> {out}",
+                              {"history": c, "call": i + 1, "observed": out})
+    rnd = random.Random(ctx.seed)
+    groups: dict = {}
+    for c in cases:
+        case = c["c"]
+        if len(case["e"]) != 1 or case["e"][0]["o"]["ess"] == "none":
+            continue
+        e = case["e"][0]
+        groups.setdefault(json.dumps([case["lw"], e["n"], e["o"]], sort_keys=True), []).append(c)
+    keys = sorted(groups)
+    if not thorough:
+        keys = rnd.sample(keys, min(len(keys), 600))
+    for k in keys:
+        grp = groups[k][:]
+        rnd.shuffle(grp)
+        E = EPOCHS[rnd.randrange(len(EPOCHS))]
+        _, leeway, _, opts, _ = concretize(grp[0]["c"], 0)
+        opts = conc_opts_at(grp[0]["c"], E)
+        reg = JWTClaimsRegistry(now=E, leeway=leeway, **opts)
+        for pos, c in enumerate(grp):
+            claims = conc_claims_at(c["c"], E)
+            try:
+                reg.validate(copy.deepcopy(claims)); out = "ok"
+            except JoseError as e:
+                out = CLASS.get(type(e).__name__, "jose:" + type(e).__name__)
+            except BaseException as e:  # noqa
+                out = "escape:" + type(e).__name__
+            n += 1
+            if out not in set(c["allowed"]):
+                ctx.violation("claims:reused-registry " + sig_of(c["c"], out), {"case": c["c"], "allowed": c["allowed"], "observed": out,
+                                                                                "position_in_history": pos, "now": E})
+    ctx.notes["reuse_pass"] = {"model_histories": len(r.cases), "request_groups": len(keys), "calls": n}
+    return n
+
+
+def conc_opts_at(case, E):
+    return {e["n"]: conc_opt(e["o"], E, False) for e in case["e"] if e["o"]["ess"] != "none"}
+
+
+def conc_claims_at(case, E):
+    return {e["n"]: conc_val(e["v"], E, False) for e in case["e"] if e["v"]["k"] != "absent"}
+
+
 def run(ctx: Ctx) -> None:
     thorough = ctx.tier == "thorough"
     r1 = ctx.tlc("Claims", "Claims_single", timeout=900, workers=1)
@@ -128,6 +194,7 @@ def run(ctx: Ctx) -> None:
         return [h % nvar, (h // 7 + 5) % nvar]
 
     ctx.evaluations = check_cases(ctx, cases, variants)
+    ctx.evaluations += reuse_pass(ctx, cases, thorough)
     ctx.traces = len(cases)
     ctx.exhaustive = True
     ctx.rule = ("TLC enumerates every single-claim case (8 claim names x 27 JSON values incl. boundary ticks around now+-leeway x 109 "
